@@ -63,8 +63,13 @@ def _run_one(args):
                                     'solver_output': [{'obligation': o['name'], 'verdict': o['verdict'], 'why': o['why']} for o in failed],
                                     'cex_models_not_reproduced': [c['model'] for c in cands][:2]}
         elif failed:
-            out['violation'] = {'kind': 'no-input', 'obligations_failed': [o['name'] for o in failed],
-                                'solver_output': [{'obligation': o['name'], 'verdict': o['verdict'], 'why': o['why']} for o in failed]}
+            if getattr(con, 'dataflow', False) and not any(o['verdict'] == 'sat' and o['kind'] in ('safety', 'callee-pre', 'frame') for o in failed):
+                # spec-view chain without a per-function native oracle: same rule as above -- the proof script no longer fits, not a verdict
+                r.undecided = 'spec-view chain obligation(s) not discharged (no per-function oracle to search for an input): %s' % [o['name'] for o in failed]
+                out['undecided'] = r.undecided
+            else:
+                out['violation'] = {'kind': 'no-input', 'obligations_failed': [o['name'] for o in failed],
+                                    'solver_output': [{'obligation': o['name'], 'verdict': o['verdict'], 'why': o['why']} for o in failed]}
         if out['violation'] is None and has_oracle:
             # bounded native stand-in (also the audit of the executor's NumPy model, assumption A9): always run
             try:
